@@ -218,6 +218,7 @@ SEEDS = {
     "C02k-full-length-shift-cut-at-n-minus-1": ("C02", "a row displaced by exactly +-(n-1) cells (the largest whole-cell shift that still fits the grid): the beyond-the-grid guard became |offset| < n-1, the one border cell that should arrive on the opposite border is lost", ["C01"]),
     "C03k-drift-power-not-advanced-over-zero-order": ("C03", "--alpha2 non-zero while --alpha1 is zero: the drift's power of the energy is a running product that is not advanced over a skipped zero coefficient, the cubic term becomes a quadratic one", ["C15", "C04"]),
     "C04k-diffusion-per-points-not-intervals": ("C04", "coarse grids (64 cells and fewer): the diffusion coefficient uses cells per unit energy = points/length instead of intervals/length, the equilibrium width is 1+1/N (1.5 % at 64 cells, 2.4 % at 32)", ["C05", "C01"]),
+    "C05k-energy-variance-about-position-mean": ("C05", "a stationary bunch displaced in phase by a resistive impedance at order-one distortion (<q> 0.16 - 0.28): the energy variance is taken about the position centroid, the recorded energy spread reads sqrt(1+<q>^2)", ["C09", "C10"]),
     "C06k-dc-term-of-wake-losses-dropped": ("C06", "an impedance with Re Z(0) != 0 (collimator, constant, a table): the product loop starts at bin 1 and bin 0 of the wake losses is set to zero", ["C10", "C07", "C05"]),
     "C07k-csr-weights-frozen-at-construction": ("C07", "the shared Impedance object is modified (+=) after the field was constructed and before updateCSR(): the spectrum uses weights dq^2 Re Z copied at construction, the wake reads the live object", ["C18", "C06"]),
     "C08k-table-offset-bunch-index-8bit": ("C08", "a train of more than 256 bunches and a y kick with one table per bunch (wake): the table offset helper takes the bunch number as an 8-bit integer, bunch 256+k is kicked with the wake of bunch k", ["C01"]),
